@@ -35,8 +35,27 @@ type Fault struct {
 // HalfRead as Fault.Partial of a read fault: the first half of the file is returned together with the error.
 const HalfRead = -2
 
-// ErrInjected is the injected non-not-exist I/O error.
+// ErrInjected is the injected non-not-exist I/O error (as requested by a hook; what the caller of the filesystem sees
+// is what an operating system would hand out for such a failure, see asOSError).
 var ErrInjected = errors.New("injected I/O error")
+
+// asOSError turns a requested ErrInjected into the error a real filesystem reports: a failure after the open succeeded
+// (some bytes were transferred) is a *os.PathError of the read / write itself with EIO / ENOSPC, a failure with no
+// effect is one of the open with EACCES. Other requested errors pass through unchanged.
+func asOSError(err error, kind, path string, partial int) error {
+	if err != ErrInjected {
+		return err
+	}
+	switch {
+	case kind == "read" && partial == HalfRead:
+		return &os.PathError{Op: "read", Path: path, Err: syscall.EIO}
+	case kind == "write" && partial >= 0:
+		return &os.PathError{Op: "write", Path: path, Err: syscall.ENOSPC}
+	case kind == "find":
+		return &os.PathError{Op: "readdirent", Path: path, Err: syscall.EIO}
+	}
+	return &os.PathError{Op: "open", Path: path, Err: syscall.EACCES}
+}
 
 // FS is the in-memory filesystem.
 type FS struct {
@@ -146,6 +165,7 @@ func (fs *FS) fault(kind, path string, data []byte) *Fault {
 func (fs *FS) ReadFile(path string) ([]byte, error) {
 	op := Op{Index: len(fs.Log), Kind: "read", Path: path}
 	if f := fs.fault("read", path, nil); f != nil && f.Err != nil {
+		f = &Fault{Err: asOSError(f.Err, "read", path, f.Partial), Partial: f.Partial, Kind: f.Kind}
 		op.Err = f.Err.Error()
 		op.Fault = f.Kind
 		fs.Log = append(fs.Log, op)
@@ -195,6 +215,7 @@ const spareCap = 48
 func (fs *FS) FindWithPrefixAndSuffix(prefix, suffix string) ([]string, error) {
 	op := Op{Index: len(fs.Log), Kind: "find", Path: prefix, Suffix: suffix}
 	if f := fs.fault("find", prefix, nil); f != nil && f.Err != nil {
+		f = &Fault{Err: asOSError(f.Err, "find", prefix, f.Partial), Partial: f.Partial, Kind: f.Kind}
 		op.Err = f.Err.Error()
 		op.Fault = f.Kind
 		fs.Log = append(fs.Log, op)
@@ -239,6 +260,7 @@ func (fs *FS) WriteFile(path string, data []byte) error {
 	cp := append([]byte{}, data...)
 	op := Op{Index: len(fs.Log), Kind: "write", Path: path, Data: cp, Sum: md5.Sum(cp)}
 	if f := fs.fault("write", path, data); f != nil && f.Err != nil {
+		f = &Fault{Err: asOSError(f.Err, "write", path, f.Partial), Partial: f.Partial, Kind: f.Kind}
 		op.Err = f.Err.Error()
 		op.Fault = f.Kind
 		if f.Partial >= 0 {
